@@ -126,9 +126,24 @@ _DEPTH = re.compile(r"The depth of the complete state graph search is (\d+)")
 _OUTDEG = re.compile(r"the maximum (\d+)")
 
 
-def run_tlc(module, cfg, *, workers=None, simulate=None, depth=None, timeout=600,
-            extra_files=(), defines=None, allow_violation=False, coverage=False,
-            dfs=False, java_opts=None, keep=False, name=None):
+def run_tlc(module, cfg, **kw):
+    """run_tlc_once with one retry when TLC itself fails (not a verdict: e.g. a JVM hiccup on a loaded machine);
+    the output of the failed attempt is kept under out/tlc-failures/."""
+    try:
+        return run_tlc_once(module, cfg, **kw)
+    except HarnessError as e:
+        if "timed out" in str(e) or "violates its own property" in str(e):
+            raise
+        os.makedirs(os.path.join(OUT, "tlc-failures"), exist_ok=True)
+        with open(os.path.join(OUT, "tlc-failures", "%s-%d.txt" % (module, int(time.time()))), "w") as f:
+            f.write(str(e))
+        log("TLC failed once on %s, retrying: %s" % (module, str(e).splitlines()[0][:200]))
+        return run_tlc_once(module, cfg, **kw)
+
+
+def run_tlc_once(module, cfg, *, workers=None, simulate=None, depth=None, timeout=600,
+                 extra_files=(), defines=None, allow_violation=False, coverage=False,
+                 dfs=False, java_opts=None, keep=False, name=None):
     """Run TLC on spec/<module>.tla with spec/<cfg> in a scratch copy of spec/.
 
     defines: dict of text substitutions written into a generated MC module
@@ -210,7 +225,9 @@ def run_tlc(module, cfg, *, workers=None, simulate=None, depth=None, timeout=600
         res.ok = False
     elif "Error:" in out or r.returncode not in (0,):
         i = out.find("Error:")
-        bad = out[i:i + 3000] if i >= 0 else (out[-2000:] + r.stderr[-2000:])
+        nonjson = "\n".join(l for l in out.splitlines() if not l.startswith('"'))
+        j = nonjson.find("Error:")
+        bad = nonjson[j:j + 3000] if j >= 0 else (nonjson[-2000:] + r.stderr[-2000:])
     if coverage:
         for line in out.splitlines():
             if re.search(r": 0$", line.strip()) and "line" in line:
